@@ -313,10 +313,10 @@ func runR051(c *core.Ctx) {
 											}
 										case *ast.SelectorExpr:
 											if fv, ok := core.ObjOf(inf, x).(*types.Var); ok && fv.IsField() {
-												if fv.Name() == "Method" && fv.Pkg() != nil && fv.Pkg().Path() == "net/http" {
+												if core.NameOf(fv) == "Method" && fv.Pkg() != nil && fv.Pkg().Path() == "net/http" {
 													return verbConst[verb], true
 												}
-												if fv.Name() == "isCollection" {
+												if core.NameOf(fv) == "isCollection" {
 													return coll, true
 												}
 											}
